@@ -54,6 +54,10 @@ def base_streams(tier):
             rot = _ibwt(b.L, op)
             b.crc_value = bzgen.crc(_unrle(rot))
         one('C:origptr%d' % op, b)
+    # the index one past a block that fills the decoder's array completely (the array has no spare entry)
+    Lf = bytes(900000)
+    one('C:origptr=n, full level-9 block', Block(L=Lf, origptr=900000, plain_for_crc=_unrle(Lf)), level=9, mutate='none')
+    one('C:origptr=n-1, full level-9 block', Block(L=Lf, origptr=899999, plain_for_crc=_unrle(Lf)), level=9, mutate='none')
     # D: randomised blocks around the 617 threshold
     for n in (5, 616, 617, 618, 619, 1300) if not quick else (5, 617, 618, 1300):
         pl = (b'randomised block %d ' % n * 100)[:n]
